@@ -212,3 +212,44 @@ def requests_C19(docs, emitted, seed, tier):
     # the witness of Props/C19.list_arm_leaks, on the real emitted code
     out.append("gl da Outer bin (struct (1 (struct (1 (i32 5)))) (12 (bool 1)) (7 (bin 00)) (2 (list struct (struct (1 (i32 1)) (2 (bin 6161616161616161616161616161616161616161616161616161616161))) (struct (1 (i32 2))))))")
     return out
+
+
+def mutate_bytes(b, r, tier):
+    """adversarial variants of a valid binary encoding: bit flips, boundary values over every aligned 4-byte and 2-byte window"""
+    out = []
+    n = len(b)
+    flips = range(n) if tier == "thorough" else r.sample(range(n), min(n, 24))
+    for i in flips:
+        for bit in ((0, 7) if tier == "quick" else range(8)):
+            m = bytearray(b); m[i] ^= 1 << bit; out.append(bytes(m))
+    vals4 = [0xFFFFFFFF, 0, 1, 0x7FFFFFFF, 0x80000000, n, n + 1, max(n - 1, 0), 0x00FFFFFF]
+    for i in (range(0, n - 3) if tier == "thorough" else r.sample(range(0, max(n - 3, 1)), min(max(n - 3, 1), 16))):
+        for v in (vals4 if tier == "thorough" else r.sample(vals4, 3)):
+            m = bytearray(b); m[i:i + 4] = v.to_bytes(4, "big"); out.append(bytes(m))
+    for i in (r.sample(range(n), min(n, 8))):
+        for tb in (0, 1, 5, 7, 9, 17, 255):
+            m = bytearray(b); m[i] = tb; out.append(bytes(m))
+    out += [bytes(r.getrandbits(8) for _ in range(r.randrange(0, 40))) for _ in range(10)]
+    return out
+
+
+def requests_C09gen(docs, emitted, seed, tier):
+    """emitted decoders on adversarial bytes (binary protocol): never panic / abort; nesting bombs on a 2 MiB stack"""
+    r = random.Random(seed * 733 + 9)
+    out = doc_lines(docs, emitted)
+    per = 2 if tier == "quick" else 8
+    for d in docs:
+        items, types = data_types(d)
+        for it in types:
+            for _ in range(per):
+                v = idlgen.gen_item_value(items, it, r, r.randrange(1, 4))
+                b = idlgen.enc_bin(v)
+                for m in mutate_bytes(b, r, tier):
+                    out.append(f"gb {d['name']} {it['name']} bin {m.hex() or '-'}")
+    # nesting bombs for the recursive types of the fixed documents, decoded on a 2 MiB stack (D10)
+    for depth in ((50, 500, 3000, 6000) if tier == "quick" else (10, 50, 100, 500, 1000, 2000, 3000, 5000, 10000, 20000)):
+        # Tree { 1: list<Tree> kids }: field 1 list<struct> with one element, `depth` times, around an empty struct
+        b = b"\x0f\x00\x01\x0c\x00\x00\x00\x01" * depth + b"\x00" + b"\x00" * depth
+        hz = " hazard=D10" if depth >= 1000 else ""
+        out.append(f"gbs db Tree bin 2048 {b.hex()}{hz}")
+    return out
